@@ -47,6 +47,11 @@ def fault_pool(ctx):
             sp = gen.make_spec(rng, D=rng.choice([1, 2]), geom="box", mode=mode, cons=None, target="quad")
             sp["options"] = {"n_search": 32, "max_fun_evals": (sp["D"] + 24) if mode == "det" else 58, "noise_final_samples": 3, "gp_mean_fun": mf}
             specs.append(sp)
+    # the other retry path: restart points drawn by the slice sampler (advanced option use_slice_sampler) instead of from the priors
+    for mode in ("he", "decl", "det") if ctx.quick else ("he", "he", "decl", "det", "auto"):
+        sp = gen.make_spec(rng, D=rng.choice([1, 2]), geom="box", mode=mode, cons=None, target="quad")
+        sp["options"] = {"n_search": 32, "max_fun_evals": (sp["D"] + 24) if mode == "det" else 58, "noise_final_samples": 3, "use_slice_sampler": True}
+        specs.append(sp)
     clean = tracer.cached("c16clean", ctx.seed, ctx.tier, lambda: [(sp, {"want": ("ctl", "gp")}) for sp in specs])
     jobs, meta = [], []
     for sp, t in zip(specs, clean):
